@@ -195,6 +195,8 @@ impl Monitor for C04 {
             ("cyclic", cyclic_universe(r))
         } else if r.chance(1, 10) {
             ("soft-backjump", gener::soft_backjump(r))
+        } else if r.chance(1, 12) {
+            ("soft-learn-reject", gener::soft_learn_reject(r))
         } else {
             (name, gener::generate(r, &family(name)))
         };
@@ -240,6 +242,16 @@ impl Monitor for C04 {
                 match &out {
                     Outcome::Ok(_) => {}
                     Outcome::Unsat(conflict) => {
+                        if round == 0 && (h ^ k as u64) % 2 == 0 {
+                            // a provider whose cancellation signal turns on after solve returned (a
+                            // deadline that expires between solving and reporting): the FIRST
+                            // rendering on this solver (nothing rendering-specific cached yet) must not care
+                            let before = sess.prov().cancel.get();
+                            sess.prov().cancel.set(Cancel::Sticky(0));
+                            render_all(&sess, conflict, ctx, &format!("{what}, cancellation signalled after solve returned"));
+                            sess.prov().cancel.set(before);
+                            ctx.rep.count("conflicts-rendered-under-a-late-cancellation-signal");
+                        }
                         let cyc = render_all(&sess, conflict, ctx, &what);
                         if cyc && round == 0 {
                             ctx.rep.sample(|| json!({"cyclic_conflict": true, "universe": universe_text(&u), "problem": problem_text(&u, &c.p)}));
